@@ -15,13 +15,17 @@
 #include "src/secp256k1.c"
 #include "post.h"
 
+#ifdef C17_LOOP
+#define NMAX ((size_t)1 << 20)     /* loop-contract variant: n symbolic up to 2^20 (object sizes), loop closed by the engine-supplied loop contract */
+#else
 #define NMAX ((size_t)1 << 40)
+#endif
 /* reads of the caller's (symbolic-size) arrays at a symbolic signature index: in the bounded variant the index is
  * enumerated so that every read has a constant offset (array theory cost) */
 #ifdef C17_NBOUND
 #define FOR_IDX(k, v) for (k = 0; k <= C17_NBOUND; k++) if (k == (v))
 #else
-#define FOR_IDX(k, v) k = (v);
+#define FOR_IDX(k, v) if (((k) = (v)), 1)
 #endif
 
 void h_aggverify(void) {
@@ -43,9 +47,10 @@ void h_aggverify(void) {
     len_ok = (W(alen) == 32 * (W(n) + 1));
     args_ok = (use_pk || n == 0) && (use_msgs || n == 0) && use_agg && built;
     verif_c17_gk = gk; c17_gk_end = 64 + 96 * ((uint64_t)gk + 1); c17_exp_r = 0; c17_exp_m = 0; c17_exp_px = 0; c17_exp_py = 0; c17_exp_s = 0;
-    verif_c17_wpos = wpos; verif_c17_wexp = 0;
+    verif_c17_wpos = wpos; verif_c17_wexp = 0; c17_r_ok = 1; c17_pk_canon = 0;
 #ifndef C17_EARLY   /* the early-exit variant never reaches the loop: no expectation about array contents is needed (and no symbolic-index reads) */
     if (len_ok && gk < n) FOR_IDX(k, gk) { c17_exp_r = be256(aggsig + 32 * k); c17_exp_m = be256(msgs + 32 * k); c17_exp_px = c17_le256(pks[k].data); c17_exp_py = c17_le256(pks[k].data + 32); }
+    c17_r_ok = (c17_exp_r < p); c17_pk_canon = (c17_exp_px < p && c17_exp_py < p);
     if (len_ok) FOR_IDX(k, n) sv = be256(aggsig + 32 * k);
     /* expected byte at stream position wpos of the running hash: signature t = (wpos-64)/96, r_t || be(x(pk_t)) || m_t */
     if (len_ok && wpos >= 64 && wpos < 64 + 96 * (uint64_t)n) { size_t t = (wpos - 64) / 96, o = (wpos - 64) % 96;
